@@ -43,3 +43,14 @@ for _p, _t in {
     "C15": "SymCodec.tla hash part: VerifyData ok iff known type, digest of that data, exact length; Validate; lossless binary/base58/JSON encodings; CompareHash.",
 }.items():
     META[_p] = dict(technique=_FN_TECH, text=_t, note=_FN_NOTE)
+REGISTRY["C33"] = ("holdopen", "run")
+HOOK_COMMITS.append("c929e0c")
+META["C33"] = dict(
+    technique="TLC exhaustive model checking of HoldOpen.tla; every TLC-enumerated interleaving replayed on the real controller through a scheduler gate; recorded traces validated by TLC (HoldOpenMon.tla, strict + observer)",
+    text="HoldOpen.tla is model-checked exhaustively (QuiescentRefs for 3 values, all interleavings of added / removed / asynchronous acquisition). "
+         "TLC then enumerates every behaviour up to a length bound; each is executed on the real hold-open controller (fake directive instance, "
+         "acquisition goroutines parked at the verif gate and released exactly where the behaviour says), and TLC validates the recorded trace: "
+         "the observed number of strong references satisfies 'held = 0 iff no link, held <= 1' at every quiescent checkpoint and equals the design state.",
+    note="The directive instance is a harness fake counting non-weak references; the goroutine order is controlled by one verif-tagged gate "
+         "(without it the check reports an infrastructure failure, not a verdict).",
+)
